@@ -967,7 +967,7 @@ func sentinelsArePlain(r *core.Run, rule string, names ...string) {
 }
 
 // c15StringIsBytes: R15.2 (String). String(n) is exactly the n bytes Bytes(n) returned, converted.
-func c15StringIsBytes(r *core.Run) {
+func c15StringIsBytes(r *core.Run, rule string) {
 	p := r.Prog
 	fn := p.Func("tds", "PacketQueue", "String")
 	bytesFn := p.Func("tds", "PacketQueue", "Bytes")
@@ -993,7 +993,7 @@ func c15StringIsBytes(r *core.Run) {
 	if n == 0 {
 		why = "no return"
 	}
-	r.Check(why == "", "R15.2", "String = string(Bytes(n))", fn.Pos(), "the bytes read, converted", why)
+	r.Check(why == "", rule, "String = string(Bytes(n))", fn.Pos(), "the bytes read, converted", why)
 }
 
 // c16SetBytesWhole: R16.10. Decimal.SetBytes hands the bytes it is given to big.Int.SetBytes as they are: any
@@ -2684,4 +2684,19 @@ func wrapperReturnsCall(r *core.Run, rule string, fn, worker *ssa.Function, cons
 		}
 	}
 	r.Check(why == "", rule, core.FuncName(fn)+" returns the result of "+worker.Name()+" unchanged", fn.Pos(), "return "+worker.Name()+"(...)", why)
+}
+
+// oneCopySite: WriteBytes has one place that copies caller bytes into a packet (the loop that splits the input over
+// packet ends). A second copy site — a fast path for small writes — has to agree with the loop about how many bytes
+// it has already placed; when it does not, the bytes that still fitted the current packet go out twice.
+func oneCopySite(r *core.Run, rule string) {
+	p := r.Prog
+	fn := p.Func("tds", "PacketQueue", "WriteBytes")
+	n := 0
+	for _, c := range core.Calls(fn) {
+		if bi, ok := c.Common().Value.(*ssa.Builtin); ok && bi.Name() == "copy" {
+			n++
+		}
+	}
+	r.Check(n == 1, rule, "PacketQueue.WriteBytes copies input bytes in one place", fn.Pos(), "one copy call, in the splitting loop", fmt.Sprintf("WriteBytes has %d copy sites: a value that straddles a packet end can be placed partly by one and again in full by the other, so a length prefix or ciphertext carries duplicated bytes and everything after it is shifted", n))
 }
